@@ -116,6 +116,12 @@ func Ctl(k int, ev string) *sx.Node { return sx.L(sx.A("ctl"), sx.I(k), sx.A(ev)
 func Cleanup() *sx.Node             { return sx.L(sx.A("cleanup")) }
 func KillEnv(k int) *sx.Node        { return sx.L(sx.A("killenv"), sx.I(k)) }
 func Rel(k int) *sx.Node            { return sx.L(sx.A("rel"), sx.I(k)) }
+
+// XFail / AFail: the executor / the agent of the task of role j of environment k fails
+// (upd: preceded by the terminal status updates of the tasks it ran).
+func XFail(k, j int, upd bool) *sx.Node { return sx.L(sx.A("xfail"), sx.I(k), sx.I(j), sx.B(upd)) }
+func AFail(k, j int, upd bool) *sx.Node { return sx.L(sx.A("afail"), sx.I(k), sx.I(j), sx.B(upd)) }
+
 func Destroy(k int, force, allow, keep bool) *sx.Node {
 	return sx.L(sx.A("destroy"), sx.I(k), sx.B(force), sx.B(allow), sx.B(keep))
 }
